@@ -319,6 +319,12 @@ func (fork ForkId) getForkSrc(split *syntax.SplitExp,
 		return split.Source
 	}
 	for _, part := range fork {
+		if _, ok := part.Id.(emptyFork); ok {
+			// An enclosing call is mapped over an empty collection in
+			// this fork: there is no element of it to take the source
+			// of this call from, and nothing for this call to map over.
+			return &syntax.ArrayExp{}
+		}
 		if part.Id.IndexSource() == nil {
 			if id, ok := index[part.Split.Call]; ok {
 				defer func() { index[part.Split.Call] = id }()
